@@ -300,6 +300,11 @@ func c14Orders(c *Ctx, n int) [][]int {
 // random tree, on the shares as they are and on shares that went through serialization, and
 // compares each result with the index-order aggregate.
 func c14OrderProbe[T any](c *Ctx, label string, shares []T, add func(a, b T) (T, error), rt func(T) (T, error), eq func(a, b T) bool) {
+	c14OrderProbeKey(c, label, "C14-agg-order", shares, add, rt, eq)
+}
+
+// c14OrderProbeKey: same with a caller-chosen finding key.
+func c14OrderProbeKey[T any](c *Ctx, label, key string, shares []T, add func(a, b T) (T, error), rt func(T) (T, error), eq func(a, b T) bool) {
 	n := len(shares)
 	id := make([]int, n)
 	for i := range id {
@@ -341,7 +346,7 @@ func c14OrderProbe[T any](c *Ctx, label string, shares []T, add func(a, b T) (T,
 	}
 	c.Count("agg_orders_checked:" + strings.Fields(label)[0])
 	c.Stats["agg_evaluations"] += cnt
-	c.Probe("agg_order_indep", fmt.Sprintf("%s N=%d evals=%d", label, n, cnt), "C14-agg-order", strings.ReplaceAll(detail, " ", "_"))
+	c.Probe("agg_order_indep", fmt.Sprintf("%s N=%d evals=%d", label, n, cnt), key, strings.ReplaceAll(detail, " ", "_"))
 }
 
 // ---------------------------------------------------------------------------------------------
